@@ -22,9 +22,10 @@ def tmax(t): return (1 << (WIDTH[t] - 1)) - 1 if t in SIGNED else (1 << WIDTH[t]
 
 
 class Gen:
-    def __init__(self, rng, level=2, max_funcs=3):
+    def __init__(self, rng, level=2, max_funcs=3, with_structs=True):
         self.rng = rng
         self.level = level
+        self.with_structs = with_structs
         self.funcs = []       # (name, params [(x,T)], ret T|None, body, result)
         self.structs = []     # (name, kind, [(m, T)])
         self.consts = []      # (name, T, expr)
@@ -395,7 +396,8 @@ class Gen:
 
     def program(self):
         if self.level >= 3:
-            self.make_consts(); self.make_structs()
+            self.make_consts()
+            if self.with_structs: self.make_structs()
         if self.level >= 2: self.library()
         nf = self.rng.randint(0, self.max_funcs)
         for i in range(nf):
@@ -681,11 +683,27 @@ def source_modules(prog, assignment, rng, order=None, plain=True, break_privacy=
             if assignment[c] != assignment[f]:
                 needs_pub.add(c)
                 imports[assignment[f]].add(assignment[c])
+    def names_in(node, acc):
+        if isinstance(node, (list, tuple)):
+            if len(node) == 2 and node[0] == "var" and isinstance(node[1], str): acc.add(node[1])
+            for x in node: names_in(x, acc)
+        return acc
+    cdefs = {n: (t, e) for n, t, e in prog.get("consts", [])}
     texts = []
     for m in range(nmods):
         out = ""
         for j in sorted(imports[m]):
             out += 'import "m%d.pn";\n' % j
+        # private copies of the constants this module's functions use (and those they are defined from)
+        used = set()
+        for f in prog["funcs"]:
+            if assignment[f[0]] == m: used |= {n for n in names_in(f[3], set()) | names_in(f[4], set()) if n in cdefs}
+        grow = True
+        while grow:
+            more = {n for u in used for n in names_in(cdefs[u][1], set()) if n in cdefs} - used
+            grow = bool(more); used |= more
+        for n, t, e in prog.get("consts", []):
+            if n in used: out += "const %s: %s = %s;\n" % (n, src_ty(t), src_expr(e, lay))
         for name, params, ret, body, result, _ in prog["funcs"]:
             if assignment[name] != m: continue
             pub = name in needs_pub and not (break_privacy and break_privacy == name)
